@@ -27,7 +27,7 @@ RULE = (
 ASSUMPTIONS = [
     "vanilla and NV gate semantics from vlib.quantum; mov = swap onto a fresh target; forced measurement outcomes identical on both sides",
     "virtual qubit 0 (the electron) is allocated whenever a two-carbon gate executes (the unallocated-electron case is C09's open finding)",
-    "Q registers are written by `set` only while the open finding q-reg-from-load is listed",
+    "two-qubit gates take Q registers written by `set` while the open finding q-reg-from-load is listed; single-qubit gates also run on a register that is only ever written by `load`",
     "every executed NV controlled rotation must have the electron (virtual id 0) as control and a carbon as target",
 ]
 SHARDS = {"quick": 4, "thorough": 16}
@@ -48,6 +48,12 @@ def st_idiom(draw, allow_load_q=False):
         lines.append(f"store {draw(st.integers(0, 2))} @0[{i}]")
     for q in range(nq):
         lines += [f"set Q0 {q}", "qalloc Q0", "init Q0"]
+    # array @1 holds the qubit ids; one Q register (QL) is only ever written by `load` from it, as FutureQubit code does
+    lines.append(f"array {nq} @1")
+    for q in range(nq):
+        lines.append(f"store {q} @1[{q}]")
+    QL = draw(st.sampled_from(["Q1", "Q1", "Q2"] + [f"Q{i}" for i in range(16)]))
+    lines.append(f"load {QL} @1[{draw(st.integers(0, nq - 1))}]")
     # the body may be a subroutine of its own (state persists): then its first instruction can be a loop label (line 0)
     split = draw(st.integers(0, 2)) == 0
     prologue = None
@@ -56,7 +62,7 @@ def st_idiom(draw, allow_load_q=False):
         lines = list(head)
     labels = [0]
     # a handful of the 16 Q registers per program (different ones in different programs)
-    qregs = sorted(draw(st.sets(st.sampled_from([f"Q{i}" for i in range(16)]), min_size=2, max_size=5)))
+    qregs = sorted(draw(st.sets(st.sampled_from([f"Q{i}" for i in range(16) if f"Q{i}" != QL]), min_size=2, max_size=5)))
     loop_regs = ["R5", "R6"]
     info = {"cc": False, "end_label": False, "loops": 0, "ifs": 0, "load_q": False}
 
@@ -65,8 +71,13 @@ def st_idiom(draw, allow_load_q=False):
         return f"{prefix}{labels[0]}"
 
     def gate_lines():
-        k = draw(st.integers(0, 9))
+        k = draw(st.integers(0, 11))
         ra, rb = draw(st.sampled_from(qregs)), None
+        if k >= 10:
+            # single-qubit gate on the load-written register: freshly loaded, or still holding an earlier id
+            pre = [f"load {QL} @1[{draw(st.integers(0, nq - 1))}]"] if draw(st.booleans()) else []
+            info["load_single"] = True
+            return pre + [f"{draw(st.sampled_from(GATES1))} {QL}"]
         if k <= 3:
             q = draw(st.integers(0, nq - 1))
             return [f"set {ra} {q}", f"{draw(st.sampled_from(GATES1))} {ra}"]
@@ -84,7 +95,13 @@ def st_idiom(draw, allow_load_q=False):
                 # the qubit id reaches the register through memory, as FutureQubits do
                 info["load_q"] = True
                 return [f"set {ra} {draw(st.integers(0, nq - 1))}", f"store {a} @0[5]", f"load {ra} @0[5]", f"set {rb} {b}", f"{g2} {ra} {rb}"]
-            return [f"set {ra} {a}", f"set {rb} {b}", f"{g2} {ra} {rb}"]
+            tail = []
+            if draw(st.booleans()):
+                # a program register must survive the expansion of the gate: use the load-written register afterwards
+                # without writing it again
+                info["load_single"] = True
+                tail = [f"{draw(st.sampled_from(GATES1))} {QL}"]
+            return [f"set {ra} {a}", f"set {rb} {b}", f"{g2} {ra} {rb}"] + tail
         if k == 8:
             q = draw(st.integers(0, nq - 1))
             return [f"set {ra} {q}", f"meas {ra} M0", f"store M0 @0[{draw(st.integers(0, 5))}]"]
@@ -296,7 +313,7 @@ def shard(ctx: Ctx) -> None:
         check(case)
         i = case["info"]
         nt = i["cc"] or i["end_label"] or i["ifs"] > 0
-        labels = ["idiom", f"nq:{case['nq']}", "debug" if case["debug"] else "nodebug"] + [k for k in ("cc", "end_label", "stress", "label_at_0") if i.get(k)] + (["loop"] if i["loops"] else []) + (["if"] if i["ifs"] else [])
+        labels = ["idiom", f"nq:{case['nq']}", "debug" if case["debug"] else "nodebug"] + [k for k in ("cc", "end_label", "stress", "label_at_0", "load_single") if i.get(k)] + (["loop"] if i["loops"] else []) + (["if"] if i["ifs"] else [])
         stt.case(str(case.get("prologue")) + case["text"] + str(case["outcomes"]) + str(case["debug"]), nt, labels, sample={"text": case["text"], "debug": case["debug"]} if len(case["text"]) < 700 else None)
 
     allow = KF_LOAD not in ctx.open_findings
